@@ -361,4 +361,33 @@ theorem fromPrintf_translated {s : St} (h : Inv s) {tmp : Nat} (ht : tmp < s.n) 
               Option.bind_assoc, this, fit]
             cases wr blk3.bytes 0 (List.map some out ++ [some 0]) <;> simp
 
+/-- `String()` into a slot that holds no object is the model's `ctorEmpty` -/
+theorem ctorEmpty_translated (s : St) (v : Nat) (hv : s.vars v = .empty) : Body.ctorEmpty s v = some (ctorEmpty s v) := by
+  simp [Body.ctorEmpty, ctorEmpty, setData, setEmpty, release, hv, setVar]
+
+/-- `String(const char* str, usize length)` into a slot that holds no object: the `length` chars at `str` are read (any pointer
+    that does not point into unallocated heap) and the model's `ctorPtr` builds the block -/
+theorem ctorPtr_translated (s : St) (v : Nat) (p : CPtr) (len : Nat) (hv : s.vars v = .empty)
+    (hp : p.base ≠ .blk s.next) :
+    Body.ctorPtr s v p len = (rdRange s p.base p.off len).bind (ctorPtr s v) := by
+  unfold Body.ctorPtr
+  obtain ⟨base, off⟩ := p
+  cases base with
+  | nul =>
+    cases hs : rdList [some 0] off len with
+    | none => mach_simp [hv, hs]
+    | some src => mach_simp [hv, hs, rdList_length hs]
+  | reg r =>
+    cases hs : rdList (List.map some (s.regs r)) off len with
+    | none => mach_simp [hv, hs]
+    | some src => mach_simp [hv, hs, rdList_length hs]
+  | blk b =>
+    have hne : b ≠ s.next := by intro e; subst e; exact hp rfl
+    cases hb : s.heap b with
+    | none => mach_simp [hv, hb, hne]
+    | some blk =>
+      cases hs : rdList blk.bytes off len with
+      | none => mach_simp [hv, hb, hne, hs]
+      | some src => mach_simp [hv, hb, hne, hs, rdList_length hs]
+
 end Nstd.Str
